@@ -322,6 +322,8 @@ def is_lossless_map_err(term, body=None):
                 src = roots_of(fb, r[1].args[0])
             elif r[0] == 'agg' and r[1].rv.j.get('variant') == 'Io' and r[1].rv.ops:
                 src = roots_of(fb, r[1].rv.ops[0])
+            elif r[0] == 'arg' and r[1] == param and not r[-1]:
+                continue      # the error itself, handed back (`|e| { cleanup(); e }`)
             elif r[0] == 'call' and depth < 2 and prog.local_callee_body(r[1].callee) is not None:
                 hb = prog.local_callee_body(r[1].callee)
                 idx = [i for i, a2 in enumerate(r[1].args) if (not a2.is_const) and all(q[0] == 'arg' and q[1] == param and not q[-1] for q in roots_of(fb, a2)) and roots_of(fb, a2)]
